@@ -2,6 +2,7 @@
 
 A history is `arb pt=<0|1> cm=<0|1> forb=<ports> rep=<n> ops=<op>;<op>;...`; the op
 encoding is documented in harness/internal/k8s/zz_verif_arb.go."""
+import re
 import itertools
 import os
 import vlib
@@ -254,6 +255,36 @@ def gen_replaced_contest(rng, kinds=("ing", "vs", "ts", "pt")):
     return line(True, False, ops, rep=4)
 
 
+def gen_replaced_attached(rng):
+    """A resource that is ATTACHED to another one — a VirtualServerRoute to a host-holding VirtualServer, a minion to its master — is
+    REPLACED (deleted and re-created under the same name, seen as one update: new UID, generation 1 again) with different content.
+    The holder's configuration changed, although neither its own metadata nor the route's name and generation did (seed C03-5)."""
+    ops = []
+    ts = rng.shuffle([1, 2, 3, 4])
+    if rng.chance(1, 2):
+        ops.append("vs|d|v|u001|%d|1|1|1|a.ex|/r>r1%s|-|-" % (ts[0], rng.choice(["", "&/s>r2", "&/t>_"])))
+        subs = rng.shuffle(["/r", "/r/a", "/r/b", "/r/c"])
+        ops.append("vsr|d|r1|u002|%d|1|1|1|a.ex|%s" % (ts[1], subs[0]))
+        if rng.chance(1, 2):
+            ops.append("vsr|d|r2|u003|%d|1|1|1|a.ex|/s/a" % ts[2])
+        what = rng.below(4)
+        if what == 3:
+            ops.append("vsr|d|r1|u004|%d|1|1|1|b.ex|%s" % (rng.choice(ts), subs[0]))      # other host: no longer fits
+        else:
+            ops.append("vsr|d|r1|u004|%d|1|1|%s|a.ex|%s" % (rng.choice(ts), "0" if what == 2 else "1", subs[1] if what else subs[0]))
+    else:
+        ops.append("ing|d|m|u001|%d|1|_|1|1|M|0|a.ex>" % ts[0])
+        ps = rng.shuffle(["/p", "/q", "/r"])
+        ops.append("ing|d|n1|u002|%d|1|_|1|1|m|0|a.ex>%s" % (ts[1], ps[0]))
+        if rng.chance(1, 2):
+            ops.append("ing|d|n2|u003|%d|1|_|1|1|m|0|a.ex>%s" % (ts[2], ps[2]))
+        what = rng.below(3)
+        ops.append("ing|d|n1|u004|%d|1|_|1|%s|m|0|a.ex>%s" % (rng.choice(ts), "0" if what == 2 else "1", ps[1] if what else ps[0]))
+    if rng.chance(1, 2):
+        ops.append("ing|e|z|u900|1|1|_|1|1|r|0|z.ex>/x")
+    return line(True, False, ops, rep=4)
+
+
 def gen_listener_handover(rng):
     """3..5 TransportServers with hosts on ONE TCP listener (TLS-terminated), distinct ages; then one or two of them are edited to
     another host, so that a single event changes the holder of two (listener, host) keys at once: the mover takes one key from its
@@ -375,8 +406,9 @@ def parse_snap(s):
     rest = rest[:-1]
     d = dict(key=key, kind=key.split("/")[0], raw=s)
     for f in split_top(rest, "!"):
-        if f.startswith("g") and f[1:].isdigit():
-            d["gen"] = int(f[1:])
+        if re.fullmatch(r"g\d+u\d+", f):
+            d["gen"] = int(f[1:f.index("u")])
+            d["uid"] = int(f[f.index("u") + 1:])
         elif f.startswith("a") and ":" not in f:
             d["ann"] = f[1:]
         elif f.startswith("M") and len(f) == 2:
